@@ -57,6 +57,10 @@ RULE = ("items = reaction-centre graphs from the vendored corpus (150 RCs of gra
         "op list deliver{items,batch_size} / cluster / classify_one / one_shot{order} with fault ops redeliver{earlier batch} and "
         "restart (new BatchCluster, templates through pickle); after every op: one class per item, same class iff isomorphic, "
         "redelivered items keep their class, templates pairwise non-isomorphic, one-shot partition == incremental partition == truth. "
+        "Widened after eight seeded rounds: two service objects on one library, prune / reorder_library / side_job, callers post-processing "
+        "returned entries, items derived from delivered objects, attribute kinds (str / descending list / pair), empty centres, negative and "
+        "float charges, default-valued attributes omitted, synthetic topologies (bridged bicyclics, hexagon vs two triangles, prism vs K3,3, "
+        "spiro vs fused, positional isomers). "
         "Non-trivial = >=1 fault (restart/redeliver) fired and >=1 probe hit")
 
 
